@@ -1,7 +1,7 @@
 """C06 A wrong key is always rejected and yields no plaintext."""
 from .common import combined
 LEVEL = 'other'
-RULES = ('S-GATE', 'S-CMP', 'R05.e', 'R05.d', 'R06.a', 'R06.b', 'R06.c', 'R12.a', 'R16.a', 'R16.b', 'R16.e', 'R16.t', 'R07.d', 'R07.e', 'R07.g', 'R07.t')
+RULES = ('S-GATE', 'S-CMP', 'R05.e', 'R05.d', 'R06.a', 'R06.b', 'R06.c', 'R12.a', 'R16.a', 'R16.b', 'R16.e', 'R16.t', 'R16.l', 'R07.d', 'R07.e', 'R07.g', 'R07.t')
 
 
 def run(prog, rec, tier):
@@ -9,6 +9,7 @@ def run(prog, rec, tier):
     from . import b64_rules
     B = b64_rules.B64Rules(prog, rec)
     B.tables()
+    B.locale_fixed()
     B.validator_decoder()
     B.decoder()
     combined(prog, rec, tier, RULES, driver=('reader',), hmac=('scmp', 'structure'), hash=('drivers', 'buffer', 'buffer_sim', 'finaliser'), compress=True,
